@@ -65,6 +65,7 @@ pub struct Stats {
     pub oracle_evals: u64,
     /// signatures of distinct non-trivial cases
     pub sigs: Vec<u64>,
+    pub sigs_compact_at: usize,
     /// digest of the current run's event log
     pub run_digest: Fnv,
     /// commutative combination of all run digests
@@ -107,6 +108,12 @@ impl Stats {
     }
     pub fn distinct(&mut self, sig: u64) {
         self.sigs.push(sig);
+        // keep memory bounded on long batches: compact when the vector has doubled
+        if self.sigs.len() >= self.sigs_compact_at.max(1 << 22) {
+            self.sigs.sort_unstable();
+            self.sigs.dedup();
+            self.sigs_compact_at = self.sigs.len() * 2;
+        }
     }
     pub fn merge(&mut self, other: Stats) {
         for (k, v) in other.counters {
@@ -516,6 +523,9 @@ fn shrink_payload(p: &Payload) -> Vec<Payload> {
             out.extend(shrink_fill(f).into_iter().map(|f| Payload::TlvTyped(*k, f)))
         }
         Payload::Section(f) => out.extend(shrink_fill(f).into_iter().map(Payload::Section)),
+        Payload::SectionAdvanced(k, f) => {
+            out.extend(shrink_fill(f).into_iter().map(|f| Payload::SectionAdvanced(*k, f)))
+        }
         Payload::U8(_) => {}
         _ => out.push(Payload::U8(7)),
     }
@@ -694,6 +704,31 @@ fn candidates(check: &dyn Check, sc: &Scenario) -> Vec<Scenario> {
                         }
                     }
                 }
+                BOp::BatchLazy(ps, style) => {
+                    // lazy batch -> plain batch, fewer items, simpler items, simplest style
+                    let mut c = sc.clone();
+                    c.ops[i] = BOp::Batch(ps.clone());
+                    out.push(c);
+                    if *style != 0 {
+                        let mut c = sc.clone();
+                        c.ops[i] = BOp::BatchLazy(ps.clone(), 0);
+                        out.push(c);
+                    }
+                    for j in 0..ps.len() {
+                        let mut c = sc.clone();
+                        if let BOp::BatchLazy(q, _) = &mut c.ops[i] {
+                            q.remove(j);
+                        }
+                        out.push(c);
+                        for p2 in shrink_payload(&ps[j]) {
+                            let mut c = sc.clone();
+                            if let BOp::BatchLazy(q, _) = &mut c.ops[i] {
+                                q[j] = p2;
+                            }
+                            out.push(c);
+                        }
+                    }
+                }
                 BOp::Write(p) => {
                     for p2 in shrink_payload(p) {
                         let mut c = sc.clone();
@@ -753,7 +788,7 @@ fn weight(sc: &Scenario) -> (usize, usize, usize) {
         .ops
         .iter()
         .map(|o| match o {
-            BOp::Batch(ps) => 2 + ps.len(),
+            BOp::Batch(ps) | BOp::BatchLazy(ps, _) => 2 + ps.len(),
             _ => 1,
         })
         .sum();
@@ -1155,7 +1190,8 @@ fn evidence_suffix() -> String {
 }
 
 pub fn write_evidence(id: &str, evidence: &Value) {
-    let dir = format!("{}/evidence", verif_root());
+    let dir = std::env::var("VERIF_EVIDENCE_DIR")
+        .unwrap_or_else(|_| format!("{}/evidence", verif_root()));
     let _ = std::fs::create_dir_all(&dir);
     let path = std::env::var("VERIF_EVIDENCE_PATH")
         .unwrap_or_else(|_| format!("{}/{}{}.json", dir, id, evidence_suffix()));
